@@ -3,7 +3,7 @@ From Coq Require Import List Bool Arith NArith QArith.
 From Coq Require String.
 Import ListNotations.
 Require Import Coin CoinWord Rare Chain XorConv.
-Require GenProofs_FrameNoise GenProofs_PauliChan GenProofs_Herald GenProofs_ElseChain GenProofs_TabMeas MeasRec.
+Require GenProofs_FrameNoise GenProofs_PauliChan GenProofs_Herald GenProofs_ElseChain GenProofs_TabMeas MeasRec Gen_Brb GenProofs_Brb.
 
 (* the coin stage of biased_randomize_bits: exactly p_top_bits of the 256 equally likely 8-coin strings yield a 1, for every
    p_top_bits < 128 (every probability the stage is used for) *)
@@ -84,5 +84,17 @@ Proof. exact (conj GenProofs_TabMeas.tableau_measure_reset_routines_ok GenProofs
 Print Assumptions C05_measurement_record_routines_are_the_model. Print Assumptions C05_generated_record_routines_refine_model.
 Print Assumptions C05_each_result_flipped_by_its_own_noise_row. Print Assumptions C05_single_shot_noise_flips_only_new_results.
 Print Assumptions C05_single_shot_noise_flips_once_per_hit. Print Assumptions C05_tableau_measurements_noisify_what_they_record.
+(* the arithmetic of biased_randomize_bits, regenerated from source as functions over Q: branch thresholds and loop shapes are
+   the modelled ones, and the 8-bit truncated probability OR-ed with the correcting rare-error pass has exactly the requested
+   probability (by field, for every p and every floor value) *)
+Theorem C05_brb_shape_is_the_model : forallb (fun x => snd x) Gen_Brb.brb_facts = true /\ Gen_Brb.brb_refused = []%list.
+Proof. exact (conj GenProofs_Brb.brb_facts_ok GenProofs_Brb.brb_no_refusal). Qed.
+Theorem C05_truncation_plus_correction_is_exact :
+  forall p f : Q, ~ (f / GenProofs_Brb.B == 1)%Q ->
+  (Gen_Brb.brb_p_truncated f GenProofs_Brb.B + (1 - Gen_Brb.brb_p_truncated f GenProofs_Brb.B) *
+   Gen_Brb.brb_correction (Gen_Brb.brb_p_leftover (Gen_Brb.brb_raised_leftover (Gen_Brb.brb_raised p GenProofs_Brb.B) f) GenProofs_Brb.B)
+                          (Gen_Brb.brb_p_truncated f GenProofs_Brb.B) == p)%Q.
+Proof. exact GenProofs_Brb.truncation_plus_correction_is_exact. Qed.
+Print Assumptions C05_brb_shape_is_the_model. Print Assumptions C05_truncation_plus_correction_is_exact.
 Print Assumptions C05_coin_stage_probability. Print Assumptions C05_word_model_lanes_are_coin_stages.
 Print Assumptions C05_gap_sampling_is_bernoulli. Print Assumptions C05_chain_is_disjoint.
